@@ -209,6 +209,23 @@ def compare(ref_occ, cur_occ, limit=100000, ambiguous=(), ref_keys=None, cur_key
             s_ = {js(t) for t in conj}
             common = s_ if common is None else common & s_
         if common:
+            # ... unless it constrains a variable the rest also talks about
+            rest_vars = set()
+            by_js = {}
+            for conj in list(ref_occ) + list(cur_occ):
+                for t in conj:
+                    if js(t) in common:
+                        by_js[js(t)] = t
+                    else:
+                        vs_ = {}
+                        _vars(t if t[0] not in ('memo', 'rx') else t[-1], vs_)
+                        rest_vars |= set(vs_)
+            for j, t in by_js.items():
+                vs_ = {}
+                _vars(t if t[0] not in ('memo', 'rx') else t[-1], vs_)
+                if set(vs_) & rest_vars:
+                    common.discard(j)
+        if common:
             for conj in ref_occ[:1]:
                 for t in conj:
                     if js(t) in common and t[0] == 'leaf':
